@@ -18,6 +18,12 @@ func Harness_C17_code_quota() {
 	for i := 0; i < limit-1; i++ {
 		w.createCode(10 * time.Minute)
 	}
+	if limit == 1 {
+		// the client's index still lists a code whose records have lapsed (the normal state some
+		// minutes after an unused code's activation window): listing cleans such references up
+		verif_Assert("C17.code.setup.stale_ref", w.st.Storage.AppendToList("tunnox:index:conncode:target:3001", "conncode_lapsed") == nil)
+		verif_Cover("C17.code.stale_reference")
+	}
 	var e1, e2 error
 	verif_Spawn(func() {
 		_, e1 = w.svc.CreateConnectionCode(&CreateRequest{TargetClientID: 3001, TargetAddress: "tcp://10.0.0.5:3306", CreatedBy: "a"})
